@@ -5,7 +5,25 @@ pub struct IoError { pub e: u8 }
 pub struct StreamErr { pub e: u8 }
 
 // ---- salted hashing (crypto leaf) -------------------------------------------------------------------------------------------
-pub uninterp spec fn spec_hash(t: Topic, salt: [u8; 65]) -> Topic;
+// BLAKE3 itself is the uninterpreted function spec_blake3 over the bytes fed to the hasher; the salted topic hash is BLAKE3 over
+// the 32 topic bytes followed by the 65 salt bytes (this layout is what `fn hash` is proved to implement)
+pub uninterp spec fn spec_blake3(input: Seq<u8>) -> [u8; 32];
+pub open spec fn spec_hash(t: Topic, salt: [u8; 65]) -> Topic { Topic(spec_blake3(t.0@ + salt@)) }
+pub struct Blake3Hasher { pub fed: Ghost<Seq<u8>> }
+pub struct Blake3Hash { pub bytes: [u8; 32] }
+impl Blake3Hasher {
+    #[verifier::external_body]
+    pub fn new() -> (r: Self) ensures r.fed@ == Seq::<u8>::empty() { unimplemented!() }
+    #[verifier::external_body]
+    pub fn write_all(&mut self, buf: &[u8]) -> (r: Result<(), IoError>)
+        ensures r is Ok ==> final(self).fed@ == old(self).fed@ + buf@, r is Err ==> final(self).fed@.len() >= old(self).fed@.len()
+    { unimplemented!() }
+    #[verifier::external_body]
+    pub fn finalize(&self) -> (r: Blake3Hash) ensures r.bytes == spec_blake3(self.fed@) { unimplemented!() }
+}
+impl Blake3Hash {
+    pub fn as_bytes(&self) -> (r: &[u8; 32]) ensures *r == self.bytes { &self.bytes }
+}
 pub uninterp spec fn spec_salt(a: [u8; 32], b: [u8; 32], dir: u8) -> [u8; 65];
 #[verifier::external_body]
 pub fn hash_vector(topics: &[Topic], salt: &[u8; 65]) -> (r: Result<Vec<Topic>, IoError>)
